@@ -52,7 +52,11 @@ def export_rows(cls, skip):
 def generate():
     from frappy.params import Parameter, Command
     from frappy.modulebase import PREDEF_ORDER
+    from frappy.datatypes import StatusType
     return [
+        # the standard status codes: the class attributes of StatusType (datatypes.py), as StatusType.__init__ looks them up
+        'def statusCodes : List (String × Int) := ' + llist(
+            f'({lstr(k)}, {int(v)})' for k, v in StatusType.__dict__.items() if isinstance(v, int) and not k.startswith('_')),
         'def paramProps : List (String × String) := ' + llist(
             f'({lstr(k)}, {lstr(jtext(canon(po.default)))})' for k, po in Parameter.propertyDict.items() if k != 'datatype'),
         'def dtypeProps : List (String × List String) := ' + llist(
